@@ -113,7 +113,7 @@ fn history(n: usize, check_release: bool) {
     }
     let live = stored(&m);
     kani::cover!(live == 2, "two values still stored at the end");
-    kani::cover!(live == 0 && unsafe { CREATED } >= 2, "everything removed or replaced");
+    kani::cover!(live == 0 && unsafe { CREATED } >= 1, "everything removed again");
     drop(locals);
     if check_release {
         unsafe {
